@@ -3,7 +3,7 @@ import re
 
 from .callgraph import norm, short
 from .cfg import Cfg, reach
-from .facts import callee, op_const, op_local, op_place
+from .facts import callee, const_int, op_const, op_local, op_place
 
 # macros of these crates are trusted third-party code (DESIGN §7)
 THIRD_PARTY_MACRO_CRATES = {"tracing", "tracing_core", "tracing_attributes", "tokio", "tokio_macros"}
@@ -577,3 +577,60 @@ def truncate_at_prefix_len(prog, site):
     if terms.strip_views(x[2][0]) != recv:
         return None
     return "truncate(prefix.len()) with the prefix %s returned for the same string" % x[1].rsplit("::", 1)[-1]
+
+
+def _find_position(term):
+    """(receiver term, needle code point) when `term` is the payload of `Some(..)` returned by `str::find(recv, <char const>)`"""
+    from . import terms
+    if isinstance(term, tuple) and term and term[0] == "field" and len(term) > 3 and term[2] == "Some" and term[3] == "0":
+        c = term[1]
+        if isinstance(c, tuple) and c[0] == "call" and c[1] in ("core::str::<impl str>::find", "core::str::<impl str>::rfind") and len(c[2]) == 2 \
+                and isinstance(c[2][1], tuple) and c[2][1][0] == "const" and isinstance(c[2][1][1], int):
+            return terms.strip_views(c[2][0]), c[2][1][1]
+    return None
+
+
+def found_position_discharge(prog, site):
+    """Structural discharge of slicing a string at a position `str::find` returned for that same string:
+    `s.truncate(i)`, `&s[..i]`, `&s[i..]` (i is a character boundary not beyond the end), `i + 1` (i < len <= isize::MAX cannot
+    overflow), and `&s[i + 1..]` when the needle is an ASCII character (one byte long).  Returns a description or None."""
+    from . import terms
+    b = site.body
+    t = b.blocks[site.bb]["t"]
+
+    def term(op):
+        l = op_local(op)
+        return terms.simplify(terms.term_of_local(b, l, depth=14)) if l is not None else None
+    if site.kind.startswith("assert:overflow:Add"):
+        ops = t.get("ops", [])
+        if len(ops) == 2 and const_int(op_const(ops[1])) == 1 and _find_position(term(ops[0])) is not None:
+            return "position returned by str::find plus one: below the string length, cannot overflow"
+        return None
+    if site.kind == "call:alloc::string::String::truncate" and len(t.get("args", [])) == 2:
+        fp = _find_position(term(t["args"][1]))
+        recv = terms.strip_views(term(t["args"][0])) if op_local(t["args"][0]) is not None else None
+        if fp is not None and fp[0] == recv:
+            return "truncate at the position str::find returned for the same string (a character boundary within it)"
+        return None
+    if site.kind.endswith("Index::index") and len(t.get("args", [])) == 2:
+        recv = terms.strip_views(term(t["args"][0])) if op_local(t["args"][0]) is not None else None
+        rng = term(t["args"][1])
+        if not (isinstance(rng, tuple) and rng and rng[0] == "agg" and str(rng[1]).startswith("core::ops::range::Range") and rng[3]):
+            return None
+        ok = True
+        for bound in rng[3]:
+            if bound == ("const", 0):
+                continue
+            fp = _find_position(bound)
+            plus1 = None
+            if fp is None and isinstance(bound, tuple) and bound[0] == "field" and isinstance(bound[1], tuple) and bound[1][0] == "binop" \
+                    and bound[1][1] in ("AddWithOverflow", "Add") and bound[1][2][1] == ("const", 1):
+                plus1 = _find_position(bound[1][2][0])
+            if fp is not None and fp[0] == recv:
+                continue
+            if plus1 is not None and plus1[0] == recv and plus1[1] < 128:
+                continue
+            ok = False
+        if ok:
+            return "slice bounded by the position str::find returned for the same string (ASCII needle: the byte after it is a boundary too)"
+    return None
